@@ -19,6 +19,7 @@ import (
 	"sync"
 	"sync/atomic"
 	"time"
+	"unsafe"
 
 	"verifharness/hx"
 
@@ -57,9 +58,63 @@ type disk struct {
 type diskState struct {
 	closed  atomic.Bool
 	refused atomic.Int64 // accesses answered with ErrStoreClosed
+	// real: shutting down means Close() of the mapdb itself (its own closed flag, its own ErrStoreClosed paths); opening it
+	// again (a process that reopens its on-disk database) resets that flag through reflection
+	real       bool
+	realClosed atomic.Bool
+	root       kvstore.KVStore
 }
 
 func newDisk(s kvstore.KVStore) *disk { return &disk{KVStore: s, diskState: &diskState{}} }
+
+func (d *diskState) shut() {
+	if d.real {
+		_ = d.root.Close()
+		d.realClosed.Store(true)
+
+		return
+	}
+	d.closed.Store(true)
+}
+
+func (d *diskState) open() {
+	if d.realClosed.Load() {
+		reopenMapDB(d.root)
+		d.realClosed.Store(false)
+	}
+	d.closed.Store(false)
+}
+
+func (d *diskState) isShut() bool { return d.closed.Load() || d.realClosed.Load() }
+
+// seen: an answer of the database below; counts the refusals of a database that was really closed.
+func (d *diskState) seen(err error) error {
+	if err != nil && d.realClosed.Load() && ierrors.Is(err, kvstore.ErrStoreClosed) {
+		d.refused.Add(1)
+	}
+
+	return err
+}
+
+// mapdbClosedFlag finds the closed flag of a mapdb handle (shared by all its views).
+func mapdbClosedFlag(s kvstore.KVStore) *atomic.Bool {
+	v := reflect.ValueOf(s)
+	if v.Kind() != reflect.Ptr || v.IsNil() || v.Elem().Kind() != reflect.Struct {
+		return nil
+	}
+	f := v.Elem().FieldByName("closed")
+	if !f.IsValid() || f.Kind() != reflect.Ptr || f.IsNil() || f.Type().Elem() != reflect.TypeOf(atomic.Bool{}) {
+		return nil
+	}
+
+	return (*atomic.Bool)(unsafe.Pointer(f.Pointer()))
+}
+
+func reopenMapDB(s kvstore.KVStore) {
+	if p := mapdbClosedFlag(s); p != nil {
+		p.Store(false)
+	}
+}
 
 func (d *disk) WithRealm(realm kvstore.Realm) (kvstore.KVStore, error) {
 	if d.refuse() {
@@ -100,7 +155,9 @@ func (d *disk) Get(k kvstore.Key) (kvstore.Value, error) {
 		return nil, kvstore.ErrStoreClosed
 	}
 
-	return d.KVStore.Get(k)
+	v, err := d.KVStore.Get(k)
+
+	return v, d.seen(err)
 }
 
 func (d *disk) Set(k kvstore.Key, v kvstore.Value) error {
@@ -108,7 +165,7 @@ func (d *disk) Set(k kvstore.Key, v kvstore.Value) error {
 		return kvstore.ErrStoreClosed
 	}
 
-	return d.KVStore.Set(k, v)
+	return d.seen(d.KVStore.Set(k, v))
 }
 
 func (d *disk) Has(k kvstore.Key) (bool, error) {
@@ -124,7 +181,7 @@ func (d *disk) Delete(k kvstore.Key) error {
 		return kvstore.ErrStoreClosed
 	}
 
-	return d.KVStore.Delete(k)
+	return d.seen(d.KVStore.Delete(k))
 }
 
 func (d *disk) Flush() error {
@@ -132,7 +189,7 @@ func (d *disk) Flush() error {
 		return kvstore.ErrStoreClosed
 	}
 
-	return d.KVStore.Flush()
+	return d.seen(d.KVStore.Flush())
 }
 
 func (d *disk) Batched() (kvstore.BatchedMutations, error) {
@@ -152,7 +209,7 @@ func (d *disk) Close() error {
 func (c *crashStore) maybeClose() {
 	if c.closeAt >= 0 && c.calls == c.closeAt && c.dsk != nil {
 		c.closeAt = -1
-		c.dsk.closed.Store(true)
+		c.dsk.shut()
 	}
 }
 
@@ -251,7 +308,6 @@ type world struct {
 	hung    bool   // a request did not return: the process is of no further use
 	faultBy string // how fnext/frelease make a store call fail: "" = injected error on top of the wrappers, "close" = the database below them is closed
 	r       *hx.Run
-	inline  bool // requests run in the calling goroutine (no watchdog goroutine of their own)
 	slow    *atomic.Bool
 	*lane          // the lane the current request works on
 	lanes   *[nLanes]*lane
@@ -416,9 +472,12 @@ func (w *world) readAnswered(k, v []byte, e error) {
 func (w *world) cellUnchanged(k, raw []byte, after string) {
 	w.sh.mu.Lock()
 	known, ok := w.sh.cell[string(k)]
+	if !ok {
+		// first look at this cell
+		w.sh.cell[string(k)] = append([]byte(nil), raw...)
+	}
 	w.sh.mu.Unlock()
-	_ = ok
-	if string(known) != string(raw) {
+	if ok && string(known) != string(raw) {
 		w.r.Fail("store-contract", fmt.Sprintf("the database holds %x under %x, the last acknowledged write was %x: the stored value changed without a store call", raw, k, known),
 			map[string]string{"oracle": "phantom-write", "after": after})
 	}
@@ -429,6 +488,12 @@ func (w *world) rawMark() ([]byte, error) { return w.rawGet(w.key) }
 
 // rawGet reads the database itself (not through the closable disk layer or any wrapper).
 func (w *world) rawGet(k []byte) ([]byte, error) {
+	if w.dsk != nil && w.dsk.realClosed.Load() {
+		// the database is really closed (fault mode closedb): look at what it holds all the same
+		reopenMapDB(w.root)
+		defer func() { _ = w.root.Close() }()
+	}
+
 	return w.root.Get(append(append([]byte{}, w.realm...), k...))
 }
 
@@ -619,22 +684,16 @@ func panicFinding(r *hx.Run, after string) {
 
 var opTimeout = 30 * time.Second
 
+// nest / nestg: how long the requests that run while another request is parked in a store call may take before the parked
+// one is let go (they then finish after it); once that happened no request is parked any more (nestBlocked).
+var (
+	nestGrace   = 5 * time.Second
+	nestBlocked atomic.Bool
+)
+
 // guarded runs one request under a watchdog; a panic of the code under test (other than the injected crash, which is
 // recovered where it is injected) is a finding, not the death of the harness.
 func (w *world) guarded(r *hx.Run, op string) (ans string, hung bool) {
-	if w.inline {
-		// a request that runs inside a store call of another lane's request: same goroutine, the outer watchdog covers it
-		defer func() {
-			if e := recover(); e != nil {
-				r.Fail("no-panic", fmt.Sprintf("%q panicked: %v", op, e), map[string]string{"oracle": "panic", "after": strings.Fields(op)[0]})
-				w.cs.armed, w.cs.failAt, w.cs.closeAt = -1, 0, -1
-				w.dsk.closed.Store(false)
-				ans = "panic"
-			}
-		}()
-
-		return w.execCore(r, op), false
-	}
 	done := make(chan string, 1)
 	go func() {
 		defer func() {
@@ -642,7 +701,7 @@ func (w *world) guarded(r *hx.Run, op string) (ans string, hung bool) {
 				r.Fail("no-panic", fmt.Sprintf("%q panicked: %v", op, e), map[string]string{"oracle": "panic", "after": strings.Fields(op)[0]})
 				// the request was torn down in the middle: disarm every pending fault
 				w.cs.armed, w.cs.failAt, w.cs.closeAt = -1, 0, -1
-				w.dsk.closed.Store(false)
+				w.dsk.open()
 				done <- "panic"
 			}
 		}()
@@ -746,6 +805,9 @@ func (w *world) setBackend(b string) bool {
 		return w.setBackend("view") && false
 	}
 	w.stack, w.realm, w.backend = top, realm, b
+	w.sh.mu.Lock()
+	w.sh.cell = map[string][]byte{} // another handle, another realm: nothing is known about its cells yet
+	w.sh.mu.Unlock()
 	for _, l := range w.lanes {
 		l.cs.KVStore, l.cs.dsk = top, w.dsk
 	}
@@ -926,7 +988,8 @@ func (w *world) execCore(r *hx.Run, op string) string {
 		}
 		w.trail = append(w.trail, strings.Join(f, "-"))
 		w.cs.calls = 0
-		byClose := w.faultBy == "close"
+		byClose := w.faultBy == "close" || w.faultBy == "closedb"
+	w.dsk.real, w.dsk.root = w.faultBy == "closedb" && mapdbClosedFlag(w.root) != nil, w.root
 		refused0 := w.dsk.refused.Load()
 		// arm: the k-th store call of the operation fails (k = 1, 2) - by the injected error, or because the database was
 		// shut down after k-1 calls; disarm: the database is opened again, report whether a store call failed
@@ -940,7 +1003,7 @@ func (w *world) execCore(r *hx.Run, op string) string {
 		disarm := func() bool {
 			if byClose {
 				w.cs.closeAt = -1
-				w.dsk.closed.Store(false)
+				w.dsk.open()
 
 				return w.dsk.refused.Load() != refused0
 			}
@@ -1194,9 +1257,9 @@ func laneSplit(f []string) (int, []string) {
 // execNest runs `nest <pt> <request A> / <request B> / …` and `nestg …`: the requests B (of OTHER lanes: other sequence keys
 // of the same store) run while request A is inside its next store call of kind <pt> for its key - get | set: on top of the
 // store stack; dget | dset: inside the access callback of a debug layer of the stack (after the Sequence encoded the value
-// and handed it over, before the database copies it). `nest`: in the very goroutine that is inside the store call (a
-// deterministic rendering of "A is descheduled there, B runs to completion on the same P"); `nestg`: the goroutine of A
-// parks in the store call and the requests B run in another goroutine meanwhile. If A makes no such store call the requests
+// and handed it over, before the database copies it). The goroutine of A parks in the store call and the requests B run in
+// another goroutine meanwhile; `nest`: with GOMAXPROCS(1) (a deterministic rendering of "A is descheduled there, B runs to
+// completion on the same P"), `nestg`: with all Ps. If A makes no such store call the requests
 // B run after it. Sequences of different keys are independent (Hive/Model/SeqMulti.lean): the answers are those of the
 // requests made one after the other.
 func (w *world) execNest(r *hx.Run, f []string) string {
@@ -1235,12 +1298,11 @@ func (w *world) execNest(r *hx.Run, f []string) string {
 	}
 	var bAns []string
 	ran := false
-	runB := func(inline bool) {
+	runB := func() {
 		ran = true
 		for _, sg := range segs[1:] {
 			bl, breq := laneSplit(sg)
 			c := w.on(bl)
-			c.inline = inline
 			bAns = append(bAns, c.exec(r, strings.Join(breq, " ")))
 			w.hung = w.hung || c.hung
 		}
@@ -1249,48 +1311,57 @@ func (w *world) execNest(r *hx.Run, f []string) string {
 	aw := w.on(aLane)
 	var aAns string
 	if f[0] == "nest" {
-		h.f = func() {
-			// a database that request A's fault has shut down is shut down for everybody (an event of the environment, not of
-			// one key): the requests B then run after A
-			if !w.dsk.closed.Load() {
-				runB(true)
-			}
+		// one P: whatever per-P state the code keeps (sync.Pool) is shared by the goroutine parked in the store call and the
+		// goroutine that runs meanwhile - the deterministic rendering of "descheduled there, the other runs on the same P"
+		prev := runtime.GOMAXPROCS(1)
+		defer runtime.GOMAXPROCS(prev)
+	}
+	entered, resume := make(chan struct{}), make(chan struct{})
+	h.f = func() {
+		// a database that request A's fault has shut down is shut down for everybody (an event of the environment, not of
+		// one key): the requests B then run after A
+		if w.dsk.isShut() || nestBlocked.Load() {
+			return
 		}
-		w.addHook(h)
-		aAns = aw.exec(r, strings.Join(aReq, " "))
-		w.dropHook(h)
-	} else {
-		entered, resume := make(chan struct{}), make(chan struct{})
-		h.f = func() {
-			if w.dsk.closed.Load() {
-				return
-			}
-			entered <- struct{}{}
-			select {
-			case <-resume:
-			case <-time.After(2 * opTimeout):
-			}
-		}
-		w.addHook(h)
-		done := make(chan string, 1)
-		go func() { done <- aw.exec(r, strings.Join(aReq, " ")) }()
+		entered <- struct{}{}
 		select {
-		case <-entered:
-			runB(false)
-			close(resume)
-			aAns = <-done
-		case aAns = <-done:
+		case <-resume:
+		case <-time.After(2 * opTimeout):
 		}
-		w.dropHook(h)
 	}
+	w.addHook(h)
+	done := make(chan string, 1)
+	go func() { done <- aw.exec(r, strings.Join(aReq, " ")) }()
+	select {
+	case <-entered:
+		bdone := make(chan struct{})
+		go func() { runB(); close(bdone) }()
+		select {
+		case <-bdone:
+			w.sh.mu.Lock()
+			w.sh.nestFired++
+			w.sh.mu.Unlock()
+		case <-time.After(nestGrace):
+			// the requests B wait for something request A holds (a lock shared by the sequences would do that): not a
+			// finding - A goes on, B finishes after it, and no request is parked in a store call any more in this run
+			nestBlocked.Store(true)
+		}
+		close(resume)
+		aAns = <-done
+		select {
+		case <-bdone:
+		case <-time.After(opTimeout):
+			r.Fail("progress", fmt.Sprintf("%q did not return within %v", strings.Join(f, " "), opTimeout), map[string]string{"oracle": "hang", "after": f[0]})
+			w.hung = true
+
+			return "hang"
+		}
+	case aAns = <-done:
+	}
+	w.dropHook(h)
 	w.hung = w.hung || aw.hung
-	if h.fired {
-		w.sh.mu.Lock()
-		w.sh.nestFired++
-		w.sh.mu.Unlock()
-	}
 	if !ran && !w.hung {
-		runB(false)
+		runB()
 	}
 
 	return aAns + " // " + strings.Join(bAns, " // ")
@@ -1625,7 +1696,7 @@ func genCfg(rng *hx.Rng) []string {
 	if rng.Chance(1, 2) {
 		// store errors are not injected on top of the wrappers: the database below them is shut down at that point of the
 		// call and opened again afterwards
-		ops = append(ops, "cfg fault close")
+		ops = append(ops, "cfg fault "+hx.Pick(rng, []string{"close", "closedb"}))
 	}
 	if rng.Chance(1, 4) {
 		// short, binary, long, equal to the realm bytes, prefix-related to the second lane's key
@@ -1676,7 +1747,7 @@ func genCase(rng *hx.Rng, n int) []string {
 			// make sure the request renews its lease (a store read and a store write)
 			ops = append(ops, lanePrefix[a]+"release")
 		}
-		line := hx.Pick(rng, []string{"nest", "nest", "nestg"}) + " " + hx.Pick(rng, pts) + " " + lanePrefix[a] + aop
+		line := hx.Pick(rng, []string{"nestg", "nestg", "nestg", "nestg", "nestg", "nest"}) + " " + hx.Pick(rng, pts) + " " + lanePrefix[a] + aop
 		crashed := []int{}
 		for j, m := 0, rng.Range(1, 3); j < m; j++ {
 			b := rng.Intn(nl)
@@ -1739,7 +1810,7 @@ func genCase(rng *hx.Rng, n int) []string {
 		}
 	}
 	if rng.Chance(1, 40) { // concurrent Next with foreign readers of another key on the same handle
-		ops = append(ops, "new 1", fmt.Sprintf("parfr 4 %d", rng.Range(300, 1200)))
+		ops = append(ops, hx.Pick(rng, []string{"new 1", "new 4294967296"}), fmt.Sprintf("parfr 4 %d", rng.Range(300, 1200)))
 	}
 	if rng.Chance(1, 12) { // concurrent Next vs Release: always the last request of a case
 		ops = append(ops, fmt.Sprintf("parrel %d %d", rng.Range(2, 4), rng.Range(20, 60)))
